@@ -40,6 +40,7 @@ class World:
         self._ids: dict = {}
         self.last_frames: tuple = ()  # function names of the traceback of the last exception
         self.origin: dict = {}        # layer id -> (mode, depth) of the document it was made for (None: made without one)
+        self.layout: dict = {}        # layer id -> (mode, depth, file version) of that document
 
     def reg(self, o) -> int:
         if o is not None and id(o) in self._ids:
@@ -51,6 +52,7 @@ class World:
                 d = getattr(o, "_psd", None)
                 try:
                     self.origin[len(self.objs) - 1] = None if d is None else (d.pil_mode, d.depth)
+                    self.layout[len(self.objs) - 1] = None if d is None else (d.pil_mode, d.depth, d.version)
                 except Exception:  # noqa
                     pass
         return len(self.objs) - 1
@@ -80,16 +82,16 @@ class World:
         return [i for i, o in enumerate(self.objs) if o is not None]
 
     def docs(self):
-        return [i for i in self.ids() if isinstance(self.objs[i], PSDImage)]
+        return [i for i, o in enumerate(self.objs) if o is not None and _kind(o) == "d"]
 
     def conts(self):
-        return [i for i in self.ids() if isinstance(self.objs[i], (PSDImage, Group))]
+        return [i for i, o in enumerate(self.objs) if o is not None and _kind(o) != "l"]
 
     def groups(self):
-        return [i for i in self.ids() if isinstance(self.objs[i], Group)]
+        return [i for i, o in enumerate(self.objs) if o is not None and _kind(o) in ("g", "a")]
 
     def layers(self):
-        return [i for i in self.ids() if isinstance(self.objs[i], Layer)]
+        return [i for i, o in enumerate(self.objs) if o is not None and _kind(o) != "d"]
 
     def plain_leaves(self):
         return [i for i in self.layers()
@@ -124,8 +126,84 @@ def _px(psd, mode, name, left=0, top=0, w=2, h=2, clip=False, visible=True):
     return l
 
 
+COMPRESSIONS = {"raw": 0, "rle": 1, "zip": 2, "zipp": 3}
+
+
+def _pattern(mode, w=5, h=4):
+    """a small picture with a gradient, runs of equal samples (RLE has something to do) and - where PIL can express
+    it - transparent, half transparent and opaque pixels"""
+    bands = {"L": 1, "RGB": 3, "CMYK": 4}[mode]
+    px = []
+    for y in range(h):
+        for x in range(w):
+            v = [(40 * x + 17 * y + 60 * b) % 256 if y else 200 - 30 * b for b in range(bands)]
+            a = 0 if (x, y) == (w - 1, h - 1) else 128 if x == 0 else 255
+            px.append(tuple(v + ([a] if mode != "CMYK" else [])))
+    im = Image.new({"L": "LA", "RGB": "RGBA", "CMYK": "CMYK"}[mode], (w, h))
+    im.putdata(px)
+    return im
+
+
+def _px_comp(psd, mode, name, left, top, w, h, comp):
+    """a pixel layer made by the API with compression `comp` = "<all planes>" or "<transparency plane>+<other planes>"
+    (planes re-encoded one by one, as a writer that chooses per plane - Photoshop - leaves them)"""
+    from psd_tools.constants import Compression
+    from psd_tools.psd.layer_and_mask import ChannelData
+    first, _, rest = comp.partition("+")
+    l = PixelLayer.frompil(_pattern(mode, w, h), psd, name, top, left, Compression(COMPRESSIONS[rest or first]))
+    if rest:
+        d, v = psd.depth, psd.version
+        ch = l._channels[0]
+        new = ChannelData(Compression(COMPRESSIONS[first]))
+        new.set_data(ch.get_data(w, h, d, v), w, h, d, v)
+        l._channels[0] = new
+        l._record.channel_info[0].length = len(new.data) + 2
+    return l
+
+
+def _new_doc(mode, depth, version):
+    # the public way to a PSB: a canvas wider than 30000 pixels
+    return PSDImage.new(mode, (30001, 4) if version == 2 else (8, 8), depth=depth)
+
+
+def build_adopt(recipe) -> World:
+    """("adopt", source, target): a source document and a target document for cross-document adoption.
+    source = "f:<fixture>" | "n:<mode>:<depth>:<version>:<compression>"; target = "<mode>:<depth>:<version>" where
+    mode / depth may be "=" (as the source). ids: the source tree, then the target, its layer b1 and its group gb."""
+    w = World(recipe)
+    src, dst = recipe[1], recipe[2]
+    if src.startswith("f:"):
+        A = PSDImage.open(str(FIX / src[2:]))
+    else:
+        _, mode, depth, version, comp = src.split(":")
+        A = _new_doc(mode, int(depth), int(version))
+        A.append(_px_comp(A, mode, "p1", 0, 0, 5, 4, comp))
+        ga = Group.new("ga", parent=A)
+        ga.append(_px_comp(A, mode, "p2", 2, 1, 3, 3, comp))
+        A.append(_px_comp(A, mode, "p3", 1, 2, 4, 2, comp.split("+")[-1]))
+    w.reg_tree(A)
+    mode, depth, version = dst.split(":")
+    mode = A.pil_mode if mode == "=" else mode
+    B = _new_doc(mode, A.depth if depth == "=" else int(depth), int(version))
+    w.reg(B)
+    base = mode.rstrip("A") if mode.rstrip("A") in ("L", "RGB", "CMYK") else "RGB"
+    B.append(PixelLayer.frompil(_pattern(base, 3, 2), B, "b1", 1, 0))
+    Group.new("gb", parent=B)
+    w.reg_tree(B)
+    return w
+
+
 def build(recipe) -> World:
-    """recipe = (shape, mode, depth) | ("fixture", relative path)"""
+    """recipe = (shape, mode, depth) | ("fixture", relative path) | ("adopt", source, target)"""
+    if recipe[0] == "adopt":
+        w = build_adopt(recipe)
+        for d in w.docs():
+            w.objs[d]._update_record()
+            w.objs[d]._updated_layers = False
+            w.objs[d]._bbox = None
+        for g in w.groups():
+            w.objs[g]._bbox = None
+        return w
     w = World(recipe)
     shape = recipe[0]
     if shape == "fixture":
@@ -192,6 +270,23 @@ def build(recipe) -> World:
         w.reg_tree(A)
         w.reg(_px(A, mode, "n", 3, 0))
         w.reg(Group.new("m"))
+    elif shape == "hid":
+        # groups below a hidden and below a visible group (visibility is inherited: the box of a group depends on
+        # its ancestors), a hidden leaf, a detached group with content
+        H = Group.new("H", parent=A)
+        K = Group.new("K", parent=H)
+        K.append(_px(A, mode, "a", 1, 2))
+        H.append(_px(A, mode, "h", 0, 5, 2, 1))
+        V = Group.new("V", parent=A)
+        M = Group.new("M", parent=V)
+        M.append(_px(A, mode, "b", 4, 4, 3, 3))
+        V.append(_px(A, mode, "v", 6, 0, 1, 2))
+        A.append(_px(A, mode, "x", 5, 6))
+        H._record.flags.visible = False
+        w.reg_tree(A)
+        fg = Group.new("fg")
+        fg.append(_px(A, mode, "f", 2, 0, 3, 1))
+        w.reg_tree(fg)
     elif shape == "board":
         # a document with artboards (API-built, typed by the reader: saved and reopened once)
         import docbuild
@@ -231,14 +326,17 @@ def _box(b):
     return "%d,%d,%d,%d" % tuple(int(v) for v in b)
 
 
+_KIND_OF_TYPE: dict = {}
+
+
 def _kind(o):
-    if isinstance(o, PSDImage):
-        return "d"
-    if isinstance(o, Artboard):
-        return "a"
-    if isinstance(o, Group):
-        return "g"
-    return "l"
+    """d / a / g / l by class (cached per class: GroupMixin is a typing.Protocol, whose instance checks are slow)"""
+    t = type(o)
+    k = _KIND_OF_TYPE.get(t)
+    if k is None:
+        k = "d" if isinstance(o, PSDImage) else "a" if isinstance(o, Artboard) else "g" if isinstance(o, Group) else "l"
+        _KIND_OF_TYPE[t] = k
+    return k
 
 
 def _artboard_rect(a):
@@ -473,7 +571,23 @@ def observe_real(w: World, o):
 
 # opaque read-only calls (not in the model): the caches they fill are reported as a `touch`
 OPAQUE = ("composite", "numpy", "topil", "find", "iterate", "pretty", "layer_composite", "mask_effects",
-          "save", "clip_layers")
+          "save", "clip_layers", "composite_all", "composite_shown", "composite_lambda")
+
+
+# layer filters a script would keep in a module and pass to composite() again and again (the SAME function
+# object in every call), as opposed to a lambda written at the call site (a new object every time)
+def filter_all(layer):
+    """render hidden layers too"""
+    return True
+
+
+def filter_shown(layer):
+    """the default rule under another name: the compositor cannot know that it is the default"""
+    return layer.is_visible()
+
+
+FILTERS = {"composite_all": lambda: filter_all, "composite_shown": lambda: filter_shown,
+           "composite_lambda": lambda: (lambda layer: True)}
 
 
 def _digest(b):
@@ -490,6 +604,11 @@ def opaque_answer(w: World, kind: str, x: int):
         if kind == "layer_composite":
             r = o.composite(force=True) if isinstance(o, PSDImage) else o.composite()
             return None if r is None else (r.mode, r.size, _digest(r.tobytes()))
+        if kind in FILTERS:
+            if not isinstance(o, (PSDImage, Layer)):
+                return None
+            r = o.composite(layer_filter=FILTERS[kind]())
+            return None if r is None else (r.mode, r.size, _digest(r.tobytes()))
         if kind == "numpy":
             r = o.numpy()
             return None if r is None else (tuple(r.shape), _digest(r.tobytes()))
@@ -505,8 +624,7 @@ def opaque_answer(w: World, kind: str, x: int):
         if kind == "find":
             if not isinstance(o, GroupMixin):
                 return None
-            names = sorted({l.name for l in walk_layers(o)}) + ["no such layer"]
-            return [(n, w.idof(o.find(n)), [w.idof(l) for l in o.findall(n)]) for n in names]
+            return find_answers(w, o)
         if kind == "iterate":
             return [w.idof(l) for l in o] if isinstance(o, GroupMixin) else None
         if kind == "pretty":
@@ -524,6 +642,33 @@ def opaque_answer(w: World, kind: str, x: int):
         return "err:RecursionError"
     except Exception as e:  # noqa
         return "err:" + err_class(e)
+
+
+def names_in_use(w: World):
+    """every layer name of the world (listed or not) + one that no layer has"""
+    names = set()
+    for i in w.layers():
+        try:
+            names.add(w.objs[i].name)
+        except Exception:  # noqa
+            pass
+    return sorted(names) + ["no such layer"]
+
+
+def find_answers(w: World, o):
+    """find / findall from container o for every name in use in the world (a name that left the subtree must
+    not be found any more, one that entered it must be)"""
+    return [(n, w.idof(o.find(n)), [w.idof(l) for l in o.findall(n)]) for n in names_in_use(w)]
+
+
+def walk_answers(w: World, o):
+    """what find_answers must give, by an independent walk of the lists"""
+    below = list(walk_layers(o))
+    out = []
+    for n in names_in_use(w):
+        hits = [w.idof(l) for l in below if l.name == n]
+        out.append((n, hits[0] if hits else None, hits))
+    return out
 
 
 def walk_layers(g):
@@ -848,6 +993,29 @@ def stale_caches(w: World):
     return out
 
 
+def stale_detached(w: World, i: int) -> bool:
+    """a group outside every document that has, or lies below a group that has, a parent pointer naming a container
+    which does not list it (is_visible() follows that pointer, the invalidation cannot come back along it)"""
+    o = w.objs[i]
+    if not isinstance(o, Group) or i in attached(w):
+        return False
+    n = 0
+    while isinstance(o, Layer) and n < 200:
+        p = getattr(o, "_parent", None)
+        if p is None:
+            return False
+        if not any(x is o for x in getattr(p, "_layers", [])):
+            return True
+        o, n = p, n + 1
+    return False
+
+
+def stale_sig(w: World, c: int, att: bool, opname: str) -> str:
+    if not att and stale_detached(w, c):
+        return "C14/bbox-stale/detached-node-with-stale-parent"
+    return "C14/bbox-stale-after/%s" % opname
+
+
 def attached(w: World):
     """ids reachable from a document through the lists"""
     seen = set()
@@ -948,9 +1116,21 @@ def run_history(recipe, ops, check_inv=True, check_fresh=True, check_shadow=True
                 step_problems.append(("C14", "C14/impure/%s-twice-differs" % op[1],
                                       "%s of object %d called twice in a row answers %s, then %s"
                                       % (op[1], op[2], _shorten(ans), _shorten(again))))
+            if check_fresh and op[1] == "find" and isinstance(ans, list) and all(len(v) == 1 for v in w.listed().values()):
+                # a name search is a derived value too: it must be what a walk of the lists gives now
+                try:
+                    want = walk_answers(w, w.objs[op[2]])
+                except Exception:  # noqa
+                    want = ans
+                if want != ans:
+                    last = next((o[0] for o in reversed(t.ops[:-1]) if o[0] not in ("obs", "opaque")), "start")
+                    bad = [(x, y) for x, y in zip(ans, want) if x != y][:3]
+                    step_problems.append(("C14", "C14/find-differs-from-walk/after-%s" % last,
+                                          "find / findall from container %d give (name, find, findall) %s, a walk of the "
+                                          "lists gives %s" % (op[2], [x for x, _ in bad], [y for _, y in bad])))
             if check_fresh:
                 for c, cached, fresh, att in stale_caches(w):
-                    sig = ("C14/bbox-stale-after/%s" % op[1]) if att else "C14/bbox-stale/detached-node-with-stale-parent"
+                    sig = stale_sig(w, c, att, op[1])
                     step_problems.append(("C14", sig, "after %s node %d caches %s, a fresh computation gives %s"
                                           % (op_str(op), c, cached, fresh)))
             if check_inv:
@@ -1022,7 +1202,7 @@ def run_history(recipe, ops, check_inv=True, check_fresh=True, check_shadow=True
         # --- freshness of every cached box
         if check_fresh:
             for c, cached, fresh, att in stale_caches(w):
-                sig = ("C14/bbox-stale-after/%s" % op[0]) if att else "C14/bbox-stale/detached-node-with-stale-parent"
+                sig = stale_sig(w, c, att, op[0])
                 step_problems.append(("C14", sig,
                                       "after %s node %d caches %s, a fresh computation gives %s"
                                       % (op_str(op), c, cached, fresh)))
@@ -1084,6 +1264,19 @@ def compare_shadow(w, sh, op, out, r, listed_before):
 def already_listed(op, listed_before):
     xs = first_inserted(op)
     return any(x in listed_before for x in xs) or len(set(xs)) != len(xs)
+
+
+def guarded(recipe, ops):
+    """the history up to (excluding) the first inserting operation whose arguments are already listed: beyond it
+    the tree is ill-formed (known finding of C10) and the freshness / purity / save statements do not apply"""
+    w = build(recipe)
+    out = []
+    for op in ops:
+        if op[0] in INSERTING and already_listed(op, w.listed()):
+            break
+        apply_real(w, op)
+        out.append(op)
+    return out
 
 
 def sig_invariant(tag, op, w, listed_before):
@@ -1436,6 +1629,59 @@ def exhaustive(recipe, depth, level=1, limit=None, rng=None, **kw):
             yield run_history(recipe, list(h), **kw)
         # only well-formed, accepted prefixes are extended
         frontier = nxt
+
+
+def visibility_move_ops(w: World):
+    """the operations of the `visibility x position` family in the current state: hide / show every group and one
+    leaf, move every group to every container that is not the group itself or below it (move_to_group, and - when the
+    group is detached - append / insert, which adopt through the same path)"""
+    ops = []
+    sh = Shadow(w)
+    G, C = w.groups(), w.conts()
+    det = set(w.detached())
+    for g in G:
+        ops.append(("vis", g, not bool(w.objs[g]._record.flags.visible)))
+    for x in w.plain_leaves()[:1]:
+        ops.append(("vis", x, not bool(w.objs[x]._record.flags.visible)))
+    for g in G:
+        for c in C:
+            if sh.reaches(g, c) or sh.container_of(g) == c:
+                continue
+            ops.append(("move", g, c))
+            if g in det:
+                ops.append(("append", c, g))
+                ops.append(("insert", c, 0, g))
+    for g in G:
+        if g not in det:
+            ops.append(("remove", sh.container_of(g), g))
+    return ops
+
+
+def visibility_move_histories(recipe, depth, limit=None, rng=None):
+    """all histories of `depth` operations of visibility_move_ops (a seeded sample with `limit`)"""
+    frontier = [()]
+    for d in range(depth):
+        nxt = []
+        for prefix in frontier:
+            w = build(recipe)
+            for op in prefix:
+                apply_real(w, op)
+            for op in visibility_move_ops(w):
+                nxt.append(prefix + (op,))
+        if limit and len(nxt) > limit:
+            nxt = rng.sample(nxt, limit)
+        frontier = nxt
+    return [list(h) for h in frontier]
+
+
+def read_everything(w0: World, ops, kinds=("bbox",), after=("repr",)):
+    """the history with a read of every container before the first and after every operation (ids of containers
+    created by the history are not read)"""
+    seq = [("obs", k, c) for k in kinds for c in w0.conts()]
+    for op in ops:
+        seq.append(op)
+        seq += [("obs", k, c) for k in after for c in w0.conts()]
+    return seq
 
 
 def exhaustive_histories(recipe, depth, level=1, limit=None, rng=None):
